@@ -118,7 +118,7 @@ package lq
 //@ func finisherDispatcher$1
 //@   property C15
 //@   requires globalLQ != nil && globalLQ.client != nil && globalLQ.client.dbWrite != nil && globalLQ.client.dbWriteSqlc != nil && batch != nil
-//@   ensures [forwarded] closed(done(*ctx)) || (sql.nCommits() == old(sql.nCommits()) + 1 && sqlc_model.nDeletes() >= old(sqlc_model.nDeletes()) + old(len(batch.URLs))) // C15: every finished seed is acknowledged to the queue
+//@   ensures [forwarded] closed(done(ctx)) || (sql.nCommits() == old(sql.nCommits()) + 1 && sqlc_model.nDeletes() >= old(sqlc_model.nDeletes()) + old(len(batch.URLs))) // C15: every finished seed is acknowledged to the queue
 
 // ---------------------------------------------------------------------------------------
 // C04 (queue half): opening the queue of a job leaves no row handed out. Init runs at every
